@@ -19,12 +19,20 @@ func zzC07Marker(file string) string {
 	return strings.ReplaceAll(strings.ReplaceAll(file, "/", "_"), ".vuego", "")
 }
 
-func zzC07File(file, layout string) string {
-	fm := ""
-	if layout != "" {
-		fm = "---\nlayout: " + layout + "\n---\n"
-	}
+func zzC07File(file, layout string, ownKeys bool) string {
 	m := zzC07Marker(file)
+	fm := ""
+	if layout != "" || ownKeys {
+		fm = "---\n"
+		if layout != "" {
+			fm += "layout: " + layout + "\n"
+		}
+		if ownKeys {
+			// a layout's own front-matter wins inside that layout only
+			fm += "pk: OWN-" + m + "\nfk: OWNF-" + m + "\n"
+		}
+		fm += "---\n"
+	}
 	return fm + `<div class="` + m + `"><span v-html="content"></span><u>` + m + `:{{ pk }}:{{ fk }}</u></div>`
 }
 
@@ -46,6 +54,7 @@ func zzJoin(dir, name string) string {
 func VerifC07_Graph() {
 	files := map[string]string{}
 	layoutOf := map[string]string{}
+	ownKeys := map[string]bool{}
 	// the page lives at top level or in dir/
 	page := []string{"p.vuego", "dir/p.vuego"}[zzChoice("pagedir", 2)]
 	pl := zzC07LayoutVals[zzChoice("pagelayout", len(zzC07LayoutVals))]
@@ -63,7 +72,9 @@ func VerifC07_Graph() {
 		}
 		l := zzC07LayoutVals[zzChoice("layout", len(zzC07LayoutVals))]
 		layoutOf[f] = l
-		files[f] = zzC07File(f, l)
+		own := zzBool("ownkeys")
+		ownKeys[f] = own
+		files[f] = zzC07File(f, l, own)
 	}
 	fsys := newZZFS(files)
 
@@ -142,6 +153,11 @@ func VerifC07_Graph() {
 	zzAssert(strings.Count(out, "PAGE:PK:FK") == 1, "C07.graph.page-rendered-once")
 	// page front-matter and Fill data visible in every layout of the chain
 	for i := 1; i < len(chain); i++ {
-		zzAssert(strings.Contains(out, zzC07Marker(chain[i])+":PK:FK"), "C07.graph.page-data-visible-in-layout")
+		m := zzC07Marker(chain[i])
+		if ownKeys[chain[i]] {
+			zzAssert(strings.Contains(out, m+":OWN-"+m+":OWNF-"+m), "C07.graph.layout-front-matter-wins-inside-the-layout")
+		} else {
+			zzAssert(strings.Contains(out, m+":PK:FK"), "C07.graph.page-data-visible-in-layout")
+		}
 	}
 }
